@@ -22,7 +22,7 @@ TEXT = {
          "contract-based deductive verification (Verus) of the real list.rs bodies: rep invariant + abstract Seq view"),
  "C06": ("proof", "4.2", "Verus proves the frame postcondition 'Err => the four session component views are those on entry' on the real Context::interpret_with_settings (whole body incl. the on-demand currency block), with every callee modelled as havoc on its receiver. 'All histories' reduces to one call by induction over the history.",
          "contract-based deductive verification (Verus): frame postcondition on the real interpret_with_settings"),
- "C02": ("other", "4.2 / 4.14 / 4.18", "PARTIAL (three clauses). (1) A rejected input is rejected as a whole before any statement runs (prints nothing, interpreter untouched): postcondition of the real interpret_with_settings. (2) Constraint GENERATION and the store: Verus proves on the real type-checker text that a constraint is dropped only when it holds outright (two closed types that differ are refuted on the spot: Constraint::try_trivial_resolution against a spec function), that ConstraintSet::add keeps every constraint that is not trivially satisfied, and that addition / subtraction / conversion / ordering comparisons (the closure get_type_and_assert_equal_dtypes), == and !=, && and ||, unary minus / factorial / !, if-then-else and annotated definitions (_elaborate_inner) each demand exactly the equations the statement lists (equal operand types, Bool conditions, equal branches, annotated = deduced) or fail at once, that the type reported for a product / quotient / power (compile-time exponent) of closed dimension types is the product / quotient / power of the operand types (DType arithmetic uninterpreted THERE), and that exactly the literals 0, inf and NaN are dimension-polymorphic. (3) The dimension algebra itself (unit dtype, real bodies of DType::try_canonicalize - merge loop included -, from_factors, multiply, divide, power, inverse and their try_ variants): the result is in canonical form (sorted, each factor once, no zero exponent - what makes structural equality of types mean equal dimension) and denotes the product / quotient / power of the operands (exponent sums in Verus' real arithmetic); two genuine findings are recorded there (exponent overflow panics the type checker). NOT covered: solving the constraints (ConstraintSet::solve, Gaussian elimination over exponents), the dispatch on the operator inside the BinaryOperator arm, function calls, list elements, struct fields, return types, and that the reported type equals dimensional analysis.",
+ "C02": ("other", "4.2 / 4.14 / 4.18 / 4.20 / 4.21", "PARTIAL (three clauses). (1) A rejected input is rejected as a whole before any statement runs (prints nothing, interpreter untouched): postcondition of the real interpret_with_settings. (2) Constraint GENERATION and the store: Verus proves on the real type-checker text that a constraint is dropped only when it holds outright (two closed types that differ are refuted on the spot: Constraint::try_trivial_resolution against a spec function), that ConstraintSet::add keeps every constraint that is not trivially satisfied, and that addition / subtraction / conversion / ordering comparisons (the closure get_type_and_assert_equal_dtypes), == and !=, && and ||, unary minus / factorial / !, if-then-else and annotated definitions (_elaborate_inner) each demand exactly the equations the statement lists (equal operand types, Bool conditions, equal branches, annotated = deduced) or fail at once, that the type reported for a product / quotient / power (compile-time exponent) of closed dimension types is the product / quotient / power of the operand types (DType arithmetic uninterpreted THERE), and that exactly the literals 0, inf and NaN are dimension-polymorphic. (3) The dimension algebra itself (unit dtype, real bodies of DType::try_canonicalize - merge loop included -, from_factors, multiply, divide, power, inverse and their try_ variants): the result is in canonical form (sorted, each factor once, no zero exponent - what makes structural equality of types mean equal dimension) and denotes the product / quotient / power of the operands (exponent sums in Verus' real arithmetic); two genuine findings are recorded there (exponent overflow panics the type checker); the Negate and BinaryOperator arms of evaluate_const_expr compute exponents exactly or report an overflow (unit consteval). Added last to (2): the loops / blocks that constrain list elements, function-call arguments, the declared return type against the body, struct fields, and the type of a field access of a closed struct. NOT covered: solving the constraints (ConstraintSet::solve, Gaussian elimination over exponents), the dispatch on the operator inside the BinaryOperator arm, instantiation of generic functions and structs (fresh variables, substitution), the missing-fields check, and that the reported type equals dimensional analysis beyond closed types.",
          "contract-based deductive verification (Verus): postcondition on interpret_with_settings; arm- and block-level extraction of the real elaborate_expression arms and of the constraint store against spec predicates over an abstract constraint log"),
  "C11": ("proof", "4.3", "Verus proves the real Quantity::{values_in_common_unit, eq, partial_cmp, partial_cmp_preserve_nan} and Unit::smaller_unit equal to spec functions written from the statement; symmetry of ==, antisymmetry of the ordering, NaN => NanOperand and trichotomy are Verus lemmas over those specs, using only IEEE-754 axioms that Kani proves on the real Number impls over all f64 bit patterns (thorough tier).",
          "contract-based deductive verification (Verus contracts + lemmas; Kani for the IEEE axioms on the real Number impls)"),
@@ -36,7 +36,7 @@ TEXT = {
          "contract-based deductive verification (Verus) of the real convert_to / no_simplify / with_conversion_target / ConvertTo arm; loop abstracted by havoc"),
  "C05": ("other", "4.9 / 4.15", "PARTIAL (two clauses): Verus proves (1) that full_simplify and full_simplify_with_registry return a value marked by an explicit conversion unchanged (the marking itself is proved for the ConvertTo arm), and (2) on the WHOLE real body of full_simplify_with_registry that whatever it returns is the heuristically simplified value itself or the result of convert_to applied to it for some unit - the registry branch never just relabels the unit. That convert_to preserves the physical magnitude, the heuristics of full_simplify and preservation of the dimension are NOT covered.",
          "contract-based deductive verification (Verus): can_simplify guards of the real full_simplify / full_simplify_with_registry (tails abstracted); provenance postcondition + loop invariant on the whole real full_simplify_with_registry with convert_to / full_simplify abstract"),
- "C10": ("other", "4.10 / 4.16 / 4.17 / 4.19", "PARTIAL: Verus proves for all token sequences that every precedence-level function of the real recursive-descent parser (postfix_apply, condition .. unicode_power, the generic parse_binop with its closures), call (argument lists, field access), arguments, identifier and the parenthesised / list / struct branches of primary return exactly the tree that the documented grammar prescribes for the tokens they consumed (one recursive spec relation g written from book/src/basics/operations.md), and that each level consumes the LONGEST derivation (after a level returns, the next token cannot continue it); the one-token primaries NaN / inf / ? / true / false; the run-time quantity-literal parser (parse_quantity_ast accepts exactly <number> [<unit>] and negations); and that no documented operator character (incl. the Unicode spellings ≤ ≥ ≠ → − ...) can be part of an identifier (character classes of the tokenizer; the fact about unicode_ident's tables is Kani-checked in the thorough tier). Decimal number literals (unit toknum: the real consume_stream_of_digits, scientific_notation, match_char and the two number arms of scan_single_token accept exactly the documented notation - integer with separators, floating point with or without leading zero, scientific - and take the longest match; the cursor primitives peek / advance are assumed). String literals, interpolation, base-prefixed integers, statements, the rest of the tokenizer and completeness of acceptance are not covered.",
+ "C10": ("other", "4.10 / 4.16 / 4.17 / 4.19", "PARTIAL: Verus proves for all token sequences that every precedence-level function of the real recursive-descent parser (postfix_apply, condition .. unicode_power, the generic parse_binop with its closures), call (argument lists, field access), arguments, identifier and the parenthesised / list / struct branches of primary return exactly the tree that the documented grammar prescribes for the tokens they consumed (one recursive spec relation g written from book/src/basics/operations.md), and that each level consumes the LONGEST derivation (after a level returns, the next token cannot continue it); the one-token primaries NaN / inf / ? / true / false; the run-time quantity-literal parser (parse_quantity_ast accepts exactly <number> [<unit>] and negations); and that no documented operator character (incl. the Unicode spellings ≤ ≥ ≠ → − ...) can be part of an identifier (character classes of the tokenizer; the fact about unicode_ident's tables is Kani-checked in the thorough tier). Decimal number literals (unit toknum: the real consume_stream_of_digits, scientific_notation, match_char and the two number arms of scan_single_token accept exactly the documented notation - integer with separators, floating point with or without leading zero, scientific - and take the longest match; consume_string never advances past the end of the input; the cursor primitives peek / advance are assumed). String literals, interpolation, base-prefixed integers, statements, the rest of the tokenizer and completeness of acceptance are not covered.",
          "contract-based deductive verification (Verus) of the real parser functions against a recursive grammar relation; higher-order contracts (call_requires / call_ensures) for parse_binop's closures; block-level extraction of branches of primary; arm-level extraction of the tokenizer's number arms against a recursive longest-match recogniser"),
  "C22": ("other", "4.11", "PARTIAL (exit-status logic): Verus proves that the input loop of the real Cli::run returns Ok iff no evaluated input asked to stop (and then has evaluated all of them), that every error arm of parse_and_evaluate maps to exit_status_in_case_of_error, and that this is Break(Error) in normal mode. Stream routing, printing, `-e` joining, process::exit in main and the REPL are not covered.",
          "contract-based deductive verification (Verus) of the real run loop (statement-level extraction), the error arms of parse_and_evaluate (arm-level) and exit_status_in_case_of_error"),
